@@ -52,6 +52,10 @@ class C09(Mon):
                 self.due = False
             if to == "idle":
                 self.due = self.from_deferred = False
+            if fr == "paused":
+                # the engine has left the pause: by resume (its rewind was judged when it happened) or by abort / stop / halt - a rewind
+                # that happens later (e.g. for a suspension, when the plan survives the halt) is not "resuming from a deferred pause"
+                self.from_deferred = False
         if kind == "call" and a[0] == "__call__":
             self.pending_seen = False        # the next plan starts: __call__ clears the request
         elif self.flag() and self.eng.state != "idle":
